@@ -739,6 +739,18 @@ def check(prop, tier, only=None):
                 rep = native_replay(h["name"], vals, "debug")
                 if rep["rc"] in (10, 11) or rep["rc"] < 0:
                     break
+            if not (rep["rc"] in (10, 11) or rep["rc"] < 0 or rep["rc"] in (134, 139)) and re.match(r"p\d\d_", h["name"]):
+                # pass-level scenarios: under Kani pass 2 runs on the harness's *expected* pass-1
+                # result, so the only failing assertion can be "pass 1 hands over something else",
+                # which fails for ANY values - including ones for which the final images happen to
+                # coincide (e.g. all-zero data).  The native replay chains the real passes; look
+                # for values that show the difference in the final result (the solver's FAILED
+                # verdict stands, the witness only has to be some input the native run fails on).
+                found = native_search(h["name"])
+                log("    %s: solver vector shows no difference in the final images; native witness search %s" % (h["name"], "found one" if found else "found nothing"))
+                if found:
+                    vals = found
+                    rep = native_replay(h["name"], vals, "debug")
             rep_rel = native_replay(h["name"], vals, "release")
             reproduced = rep["rc"] in (10, 11) or rep["rc"] < 0 or rep["rc"] in (134, 139)
             log("    %s native replay: debug exit=%s release exit=%s api=%s roles=%s" % (h["name"], rep["rc"], rep_rel["rc"], rep["api"], rep["roles"]))
